@@ -1,5 +1,6 @@
 """C16 - parsing a spec does not change the spec; re-parsing gives the same object."""
 import copy
+import json
 import warnings
 
 from ..runner import TestSpec, Outcome
@@ -369,8 +370,90 @@ def body_text(case):
     return out
 
 
+# ------------------------------------------------------------------ the first parses of a fresh process
+FRESH_SCRIPT = r"""
+import sys, json, os, tempfile, warnings
+warnings.simplefilter("ignore")
+src, text, order = sys.argv[1], sys.argv[2], sys.argv[3]
+sys.path.insert(0, src)
+import valida
+from valida.schema import Schema
+assert os.path.abspath(valida.__file__).startswith(os.path.abspath(src) + os.sep), valida.__file__
+td = tempfile.mkdtemp()
+fn = os.path.join(td, "s.yaml")
+open(fn, "w", encoding="utf-8").write(text)
+other = os.path.join(td, "o.yaml")
+open(other, "w", encoding="utf-8").write("rules:\n- path: [a]\n  condition: {value.equal_to: 2001-12-14}\n")
+def load(how, which=None):
+    if how == "t":
+        return Schema.from_yaml(text)
+    if how == "f":
+        return Schema.from_yaml_file(fn)
+    if how == "o":
+        return Schema.from_yaml_file(other)
+    if how == "p":
+        return Schema.from_yaml("rules:\n- path: [yes, 010]\n  condition: {value.in: [on, 2001-12-14, 1_0]}\n")
+res = [load(h) for h in order]
+main = [r for r, h in zip(res, order) if h in "tf"]
+ok = all((a == main[0]) is True and (main[0] == a) is True for a in main[1:])
+print(json.dumps({"ok": ok, "reprs": [repr(m.rules)[:300] for m in main]}))
+"""
+
+
+def gen_fresh(r):
+    spec, _, d, _ = gen_text(r)
+    # (always with scalars whose reading depends on the resolver: a timestamp, a YAML 1.1 boolean, an octal look-alike)
+    spec["rules"].append({"path": ["when"], "condition": {"value.in": ["2001-12-14", r.choice(YAML_SENSITIVE), r.choice(YAML_SENSITIVE)]}})
+    # the order of the first loads of the process: t = the text, f = the same text from a file, o / p = other texts
+    order = r.choice(["tot", "tft", "tpt", "ftf", "tof", "fpt", "otft"])
+    return spec, order
+
+
+def body_fresh(case):
+    """The same sequence in a FRESH interpreter: what the very first load of a process does (registering something with
+    the YAML library, filling a module-level table) must not change how the next text is read."""
+    import io, subprocess, sys
+    from ruamel.yaml import YAML
+
+    spec, order = case
+    out = Outcome()
+    out.nontrivial = True
+    out.label(f"fresh-process:{order}")
+    try:
+        buf = io.StringIO()
+        YAML(typ="safe").dump(spec, buf)
+        text = buf.getvalue().replace("'2001-12-14'", "2001-12-14")
+    except Exception:
+        out.nontrivial = False
+        return out
+    out.sample = f"order {order}: {text[:300]}"
+    src = build.ns().valida.__file__.rsplit("/valida/", 1)[0]
+    try:
+        pr = subprocess.run([sys.executable, "-c", FRESH_SCRIPT, src, text, order], capture_output=True, text=True, timeout=120,
+                            env={**__import__("os").environ, "PYTHONHASHSEED": "0"})
+    except subprocess.TimeoutExpired:
+        out.label("fresh-process-timeout")
+        out.nontrivial = False
+        return out
+    if pr.returncode != 0:
+        # (the text may be refused - then it is refused every time; anything else shows in stderr)
+        out.label("fresh-process-raised")
+        out.nontrivial = False
+        return out
+    try:
+        res = json.loads(pr.stdout.strip().splitlines()[-1])
+    except Exception:
+        out.label("fresh-process-unreadable")
+        out.nontrivial = False
+        return out
+    if not res["ok"]:
+        out.add("reparse-equal", f"reparse-equal|fresh-process|{order}", f"loads of the same text in a fresh process (order {order}) differ: {res['reprs']}"[:700])
+    return out
+
+
 def tests(tier):
     return [
+        TestSpec("fresh-process", gen_fresh, body_fresh, {"quick": 12, "thorough": 600}, tape=2048),
         TestSpec("reparse", gen_case, body, {"quick": 3000, "thorough": 250000}, tape=2048, fuzz={"thorough": 40000}),
         TestSpec("reparse-text", gen_text, body_text, {"quick": 400, "thorough": 30000}, tape=2048),
     ]
